@@ -158,8 +158,12 @@ impl Compiler {
         if crate::verif::c12::bypassed(crate::verif::c12::PRE_EVAL) {
             CACHE.with(|cache| cache.borrow_mut().clear());
         }
+        // Only the result of a pure node depends on nothing but the node.
+        // Anything else (Lsp mode) may reach the backend, so its result
+        // belongs to this compiler's backend at this moment only.
+        let cacheable = node.is_pure(&self.asm);
         CACHE.with(|cache| {
-            if let Some(stack) = cache.borrow_mut().get(node) {
+            if cacheable && let Some(stack) = cache.borrow_mut().get(node) {
                 return Ok(stack.clone());
             }
             let mut asm = self.asm.clone();
@@ -181,11 +185,15 @@ impl Compiler {
                     } else {
                         Some(stack)
                     };
-                    cache.borrow_mut().insert(env.asm.root, res.clone());
+                    if cacheable {
+                        cache.borrow_mut().insert(env.asm.root, res.clone());
+                    }
                     Ok(res)
                 }
                 Err(e) if matches!(*e.kind, UiuaErrorKind::Timeout(..)) => {
-                    cache.borrow_mut().insert(env.asm.root, None);
+                    if cacheable {
+                        cache.borrow_mut().insert(env.asm.root, None);
+                    }
                     Ok(None)
                 }
                 Err(e) => Err(e),
